@@ -93,9 +93,24 @@ def render(prog, nested, dotted_mods, width, incase=False):
 CLS = {"BooleanType": "bool", "IntegerType": "int", "FloatType": "float", "StringType": "str"}
 
 
-def observe(text, nested):
+def parse_chained(text):
+    """The first logical part (up to and including the definition and its !constant) is parsed by one DIP object,
+    the modifications by a second one built on the returned environment."""
+    lines = text.rstrip("\n").split("\n")
+    # split after the definition line (first line that declares a type) and an optional !constant
+    idx = next(i for i, l in enumerate(lines) if l.lstrip().startswith(("x int", "x float", "x bool", "x str")))
+    if idx + 1 < len(lines) and lines[idx + 1].lstrip().startswith("!constant"):
+        idx += 1
+    first, rest = "\n".join(lines[:idx + 1]) + "\n", "\n".join(lines[idx + 1:]) + "\n"
+    r = D.parse_dip(first)
+    if r[0] != "ok" or not rest.strip():
+        return r
+    return D.parse_dip(rest, base_env=r[1])
+
+
+def observe(text, nested, chained=False):
     from scinumtools.dip.settings import Format
-    r = D.parse_dip(text)
+    r = parse_chained(text) if chained else D.parse_dip(text)
     if r[0] != "ok":
         return {"ok": False, "err": r[1]}
     try:
@@ -139,11 +154,14 @@ def agrees(obs, exp, full):
 
 def replay_record(rec):
     prog = rec["prog"]
-    variants = [(False, False, 2, False), (True, True, 2, False), (True, False, 3, False), (False, False, 2, True)]
+    variants = [(False, False, 2, False, False), (True, True, 2, False, False), (True, False, 3, False, False), (False, False, 2, True, False),
+                (False, False, 2, False, True)]
     first = None
-    for nested, dotted, width, incase in variants:
+    for nested, dotted, width, incase, chained in variants:
+        if chained and (not prog["mods"] or prog["first"]["dec"]):
+            continue      # a declaration alone is no complete text; nothing to chain without modifications
         s = render(prog, nested, dotted, width, incase)
-        obs = observe(s, nested)
+        obs = observe(s, nested, chained)
         if agrees(obs, rec["ideal"], True):
             if not agrees(obs, rec["mach"], False):
                 return ("drift", {"text": s, "machine": rec["mach"], "observed": str(obs)})
@@ -177,13 +195,15 @@ def run(replay=None):
         runs.append(tlc(["int", "float", "bool", "str"], [(0, 1), (1, 1), (-2, 1), (5, 2)], ["", "m", "cm", "s"], 1))
         runs.append(tlc(["float"], [(0, 1), (-2, 1), (5, 2)], ["", "m", "cm"], 2))
         runs.append(tlc(["int", "bool"], [(0, 1), (300, 1)], ["", "m", "km"], 2))
+        runs.append(tlc(["int"], [(1190, 1), (-290, 1), (7, 1)], ["cm", "mm", "m"], 1))
         runs.append(tlc(["float"], [(0, 1), (20, 1), (5463, 20)], ["K", "Cel", "[len2]", "[len5]", "m"], 2))
     else:
         runs.append(tlc(["int", "float", "bool", "str"], [(0, 1), (1, 1), (-2, 1), (5, 2), (300, 1)], ["", "m", "cm", "km", "s", "ms"], 1))
-        runs.append(tlc(["float", "int"], [(0, 1), (-2, 1), (5, 2), (300, 1)], ["", "m", "cm", "s"], 2))
+        runs.append(tlc(["float", "int"], [(0, 1), (-2, 1), (5, 2)], ["", "m", "cm", "s"], 2))
         runs.append(tlc(["float"], [(0, 1), (5, 2)], ["", "m", "cm"], 3))
         runs.append(tlc(["bool", "str"], [(0, 1)], [""], 3))
-        runs.append(tlc(["float", "int"], [(0, 1), (20, 1), (-2, 1), (5463, 20)], ["", "K", "Cel", "[len2]", "[len5]", "m", "cm"], 2))
+        runs.append(tlc(["int"], [(1190, 1), (-290, 1), (7, 1), (928, 1)], ["cm", "mm", "m", "km"], 2))
+        runs.append(tlc(["float"], [(0, 1), (20, 1), (5463, 20)], ["", "K", "Cel", "[len2]", "[len5]", "m"], 2))
     recs, seen = [], set()
     for r in runs:
         if r.violated:
